@@ -187,6 +187,7 @@ theorem copy_all_or_none (src dst : Md) :
   split; · exact .inr ⟨_, rfl⟩
   split; · exact .inr ⟨_, rfl⟩
   split; · exact .inr ⟨_, rfl⟩
+  split; · exact .inr ⟨_, rfl⟩
   exact .inl ⟨_, rfl, rfl, rfl⟩
 
 theorem copy_clash (src dst : Md) (hm : dst.modifiable = true) (s d : MdEntry) (hs : s ∈ src.entries)
@@ -196,12 +197,51 @@ theorem copy_clash (src dst : Md) (hm : dst.modifiable = true) (s d : MdEntry) (
     simp only [List.any_eq_true]; exact ⟨s, hs, d, hd, hc⟩
   simp [this, hm]
 
+theorem dupNames_false (l : List MdEntry) (h : dupNames l = false) :
+    l.Pairwise (fun a b => nameEq a.name b.name = false) := by
+  induction l with
+  | nil => exact List.Pairwise.nil
+  | cons e es ih =>
+    simp only [dupNames, Bool.or_eq_false_iff] at h
+    refine List.Pairwise.cons ?_ (ih h.2)
+    intro b hb
+    have := h.1
+    simp only [List.any_eq_false] at this
+    simpa using this b hb
+
+/-- (repair F24) whatever the source is — also metadata the reader linked by hand, which may repeat
+    a name — a successful copy into a collection with unique names has unique names: a source
+    that repeats a name clashes with itself -/
+theorem copy_unique_names (src dst dst' : Md)
+    (hid : dst.entries.Pairwise (fun a b => nameEq a.name b.name = false)) (h : copy src dst = .ok dst') :
+    dst'.entries.Pairwise (fun a b => nameEq a.name b.name = false) := by
+  unfold copy at h
+  split at h; · simp at h
+  split at h; · simp at h
+  split at h; · simp at h
+  split at h; · simp at h
+  rename_i _ hclash hdup _
+  simp at h; subst h
+  simp only
+  rw [List.pairwise_append]
+  refine ⟨hid, dupNames_false _ (by simpa using hdup), ?_⟩
+  intro a ha b hb
+  simp only [List.any_eq_true, not_exists, not_and, Bool.not_eq_true] at hclash
+  rw [C11.nameEq_symm]; exact hclash b hb a ha
+
+theorem copy_self_clash (src dst : Md) (hm : dst.modifiable = true) (hd : dupNames src.entries = true) :
+    copy src dst = .error .mdExists := by
+  unfold copy
+  simp only [hm, Bool.true_eq_false, if_false, hd, if_true]
+  split <;> rfl
+
 theorem copy_inv (src dst dst' : Md) (his : Inv src) (hid : Inv dst) (h : copy src dst = .ok dst') : Inv dst' := by
   unfold copy at h
   split at h; · simp at h
   split at h; · simp at h
   split at h; · simp at h
-  rename_i _ hclash _
+  split at h; · simp at h
+  rename_i _ hclash _ _
   simp at h; subst h
   refine ⟨?_, ?_⟩
   · simp only
